@@ -10,7 +10,7 @@
    - header total difficulties do not overflow (checked up front since commit a11000d);
    - block difficulties below 2^192 (a header above cannot pass the PoW check). *)
 From Coq Require Import NArith List.
-From LC Require Import Matching Difficulty LastStateProof MatchingProofs DifficultyProofs2 LastStateProofProofs.
+From LC Require Import Matching Difficulty LastStateProof MatchingProofs DifficultyProofs2 LastStateProofProofs ExecPanicProofs.
 Import ListNotations.
 Open Scope N_scope.
 
@@ -53,3 +53,21 @@ Proof.
   apply execute_outcome in H. destruct H; try (exfalso; apply Hne; reflexivity). assumption.
 Qed.
 Print Assumptions C10_long_fork_abort_needs_flag.
+
+(* the whole modelled SendLastStateProof handler: whatever a peer with an outstanding request sends, the only way the
+   handler unwinds is the documented stop.  Hypotheses, each guaranteed before or by the decoding:
+   - [hdr_ok]: field ranges of decoded headers (u64 number, u24/u16 epoch fields) and block difficulty below 2^192 (PoW);
+   - the request's last header and the peer's proven header have total difficulties that do not overflow (both were
+     validated when they were accepted: commit a11000d);
+   - [mmr <> 3]: the MMR library does not unwind (the guards of commits da00bf8 and b77324c keep oversized end numbers
+     and digests away from it; the library itself is not verified). *)
+Theorem C10_only_documented_abort :
+  forall last_n tau ps rq st ml pe hs mmr rb rg site,
+    1 <= last_n -> 0 < tau -> mmr <> 3 ->
+    hdr_ok ml -> Forall hdr_ok hs ->
+    is_ok (vtd (pr_last rq)) = true ->
+    (forall old, ps = Some old -> is_ok (vtd (ps_last old)) = true /\ hdr_ok (ps_last old)) ->
+    execute last_n tau (PRequested ps rq) st ml pe hs mmr rb rg = Panic site ->
+    site = S_LONG_FORK /\ pr_long_fork rq = true.
+Proof. exact execute_panics_only_as_documented. Qed.
+Print Assumptions C10_only_documented_abort.
